@@ -163,6 +163,7 @@ def alternatives(pattern: str, flags: int = 0, limit: int = 400, depth: int = 2)
     count = 0
     queue = [()]  # tuples of (branch id, alternative)
     base_repeats = None
+    derivations = []  # (choice, repeats met in that derivation) for derivations with at most one non-default choice
     while queue:
         choice = queue.pop(0)
         w = _Walker(flags)
@@ -170,6 +171,8 @@ def alternatives(pattern: str, flags: int = 0, limit: int = 400, depth: int = 2)
         s = w.gen(tree)
         if base_repeats is None:
             base_repeats = list(w.repeats)
+        elif len(choice) == 1:
+            derivations.append((choice, list(w.repeats)))
         if s not in seen:
             seen.add(s)
             yield s
@@ -181,17 +184,26 @@ def alternatives(pattern: str, flags: int = 0, limit: int = 400, depth: int = 2)
             for bid in range(last + 1, len(w.branches)):
                 for k in range(1, w.branches[bid]):
                     queue.append(choice + ((bid, k),))
-    for rid, (lo, hi) in enumerate(base_repeats or []):
-        if lo == 0:
-            w2 = _Walker(flags)
-            w2.opt = {rid: 1}
-            s = w2.gen(tree)
-            if s not in seen:
-                seen.add(s)
-                yield s
-                count += 1
-                if count >= limit:
-                    return
+    for choice, repeats in [((), base_repeats or [])] + derivations:
+        for rid, (lo, hi) in enumerate(repeats):
+            # every optional part once; every repeatable part once more than its minimum (a quantifier that binds to
+            # the wrong unit - the last byte of a multi-byte literal, say - still matches the minimum)
+            more = [1] if lo == 0 else []
+            if hi is sc.MAXREPEAT or hi >= lo + 2 or (lo == 0 and hi >= 2):
+                more.append(lo + 2 if lo == 0 else lo + 1)
+            for n in more:
+                if n <= lo:
+                    continue
+                w2 = _Walker(flags)
+                w2.choice = dict(choice)
+                w2.opt = {rid: n}
+                s = w2.gen(tree)
+                if s not in seen:
+                    seen.add(s)
+                    yield s
+                    count += 1
+                    if count >= limit:
+                        return
 
 
 _CI_EQUIV = None
@@ -210,3 +222,36 @@ def ci_equivalents():
                     out.setdefault(letter, []).append(ch)
         _CI_EQUIV = out
     return _CI_EQUIV
+
+
+def shape_key(regex: str) -> str:
+    """The pattern with the content of its (?P<reporter>...) group masked: extractors built from one template for
+    different reporters share a shape."""
+    i = regex.find("(?P<reporter>")
+    if i < 0:
+        return regex
+    depth = 0
+    j = i
+    while j < len(regex):
+        ch = regex[j]
+        if ch == "\\":
+            j += 2
+            continue
+        if ch == "(":
+            depth += 1
+        elif ch == ")":
+            depth -= 1
+            if depth == 0:
+                break
+        j += 1
+    return regex[:i] + "(?P<reporter>R)" + regex[j + 1:]
+
+
+def shape_representatives(extractors):
+    """[(index, extractor)] - the first extractor of every distinct shape."""
+    seen = {}
+    for i, e in enumerate(extractors):
+        k = (shape_key(e.regex), e.flags, bool(getattr(e, "extra", {}).get("short")))
+        if k not in seen:
+            seen[k] = (i, e)
+    return list(seen.values())
